@@ -300,12 +300,45 @@ class StepExec:
             return base if ct > 0 else {"+": "-", "-": "+"}[base]
         return sign_of(s, self.facts)
 
+    def floor_sign(self, s: Scalar):
+        """'-' (<= -1), '0+' (>= 0) or None for a polynomial that is +-floor(q), from the sign of q under the scenario"""
+        at = _single_atom(s)
+        neg = False
+        if at is None:
+            at = _single_atom(-s)
+            neg = True
+        if at is None or at[0] != "floor":
+            return None
+        q = Scalar(dict(at[1]))
+        qa = _single_atom(q)
+        if qa is not None and qa[0] == "div":
+            n, d = self.diff_sign(Scalar(dict(qa[1]))), self.diff_sign(Scalar(dict(qa[2])))
+            if "?" in (n, d) or d == "0" or n == "0":
+                return None
+            qs = "+" if n == d else "-"
+        else:
+            qs = self.diff_sign(q)
+        if qs not in ("+", "-"):
+            return None
+        fs = "0+" if qs == "+" else "-"
+        if neg:
+            fs = {"0+": "0-", "-": "+"}[fs]
+        return fs
+
     def truth(self, c) -> Optional[bool]:
         if c[0] == "bin" and c[1] in (">", ">=", "<", "<=", "==", "!="):
             l, r = self.num(c[2]), self.num(c[3])
             if l is None or r is None:
                 return None
             d = l - r
+            fs = self.floor_sign(d)
+            if fs is not None:
+                # d is +-floor(quotient): integer valued, so "-" means <= -1 and "+" means >= 1
+                tbl = {"-": {"<": True, "<=": True, ">": False, ">=": False, "==": False, "!=": True},
+                       "+": {"<": False, "<=": False, ">": True, ">=": True, "==": False, "!=": True},
+                       "0+": {"<": False, ">=": True}, "0-": {">": False, "<=": True}}
+                if c[1] in tbl[fs]:
+                    return tbl[fs][c[1]]
             t = dict(d.t)
             ct = t.pop((("TARGET", 1),), 0)
             ch = t.pop((("HELD", 1),), 0)
